@@ -9,6 +9,8 @@ import (
 
 var props = map[string]*kernel.Prop{
 	"C14": {ID: "C14", Engine: "lakesim", RunOne: runC14},
+	"C13": {ID: "C13", Engine: "lakesim", RunOne: runC13a},
+	"C15": {ID: "C15", Engine: "lakesim", RunOne: runC15seq},
 }
 
 func TestSim(t *testing.T) {
